@@ -159,6 +159,12 @@ fn response_matches_request(request: &Message, response: &Message) -> bool {
     true
 }
 
+/// Verification hook: `response_matches_request` is private.
+#[cfg(resolved_verif)]
+pub fn verif_response_matches_request(request: &Message, response: &Message) -> bool {
+    response_matches_request(request, response)
+}
+
 /// Check if this is an NXDOMAIN or NODATA response and return the SOA if so.
 ///
 /// Also sanity checks that the SOA record could be authoritative for the query
